@@ -1515,8 +1515,8 @@ def isunresolvable(t: tp.Any) -> bool:
     return (
         t in _UNRESOLVABLE
         or isinstance(t, tp.TypeVar)
-        # `Callable[[int], str]`, `type[int]`: nothing to build a routine from.
-        or tp.get_origin(t) in (abc_Callable, type)
+        # `Callable[[int], str]`, `type[int]`, `re.Match[str]`: nothing to build a routine from.
+        or tp.get_origin(t) in (abc_Callable, type, re.Match)
     )
 
 
